@@ -95,6 +95,9 @@ func (g *gen) execScript(budget int, allowErrRes bool) []Outcome {
 	}
 	for i := 0; i < nfail; i++ {
 		o := Outcome{Fail: pick(g.r, failKinds), Both: g.chance(0.15)}
+		if o.Both && allowErrRes && g.chance(0.5) {
+			o.Pay = "er" // a Result-style function reports the failure both ways: an error Result and the error
+		}
 		if g.chance(g.sleepP) {
 			o.SleepMs = 10 * (1 + g.r.IntN(3))
 		}
@@ -225,9 +228,9 @@ func (g *gen) leaf(nv int) *NodeSpec {
 func (g *gen) flowOver(members []int, density float64) *NodeSpec {
 	f := &NodeSpec{ID: len(g.sc.Nodes), Kind: "flow", Start: pick(g.r, members)}
 	for _, from := range members {
-		for _, a := range []string{"default", "a", "ab", "b", "Default"} {
-			if !g.chance(density) {
-				continue
+		for _, a := range []string{"default", "a", "ab", "b", "Default", ""} {
+			if !g.chance(density) || (a == "" && !g.chance(0.4)) {
+				continue // (the empty action is its own table key: no node can finish with it, so such an edge is dead)
 			}
 			to := -1
 			if !g.chance(0.12) {
@@ -352,7 +355,7 @@ func (g *gen) lateConnects() {
 			if !g.chance(0.25) {
 				to = pick(g.r, ms)
 			}
-			f.LateConns = append(f.LateConns, Conn{From: pick(g.r, ms), Action: pick(g.r, []string{"default", "a", "ab", "b", "Default"}), To: to})
+			f.LateConns = append(f.LateConns, Conn{From: pick(g.r, ms), Action: pick(g.r, []string{"default", "a", "ab", "b", "Default", ""}), To: to})
 		}
 	}
 }
@@ -485,7 +488,7 @@ func (g *gen) batch(o batchOpts) *NodeSpec {
 }
 
 func newGen(prop, tier string, r *rand.Rand) *gen {
-	return &gen{r: r, tier: tier, sc: &Scn{Prop: prop}, kinds: allLeafKinds, actions: actionAlphabet, maxVisit: 3, failP: 0.25, sleepP: 0.15, noErrRes: prop != "C17"}
+	return &gen{r: r, tier: tier, sc: &Scn{Prop: prop}, kinds: allLeafKinds, actions: actionAlphabet, maxVisit: 3, failP: 0.25, sleepP: 0.15}
 }
 
 // generate draws one scenario for a property profile.
@@ -938,6 +941,24 @@ func genC09(prop, tier string, r *rand.Rand) *Scn {
 	fail(f)
 	for k := r.IntN(3); k > 0; k-- {
 		fail(r.IntN(ni))
+	}
+	if r.IntN(5) == 0 {
+		// second sentence under cancellation: items the cancellation kept from
+		// running must reach post as errors, also on a node whose fallback recovers
+		g.sc.Ctx.Kind = "cancel"
+		if n.HasFb {
+			for i := range vs.Items {
+				vs.Items[i].Fb = &Outcome{Pay: g.pay()}
+			}
+		}
+		if r.IntN(3) == 0 {
+			g.sc.Canceller = &Canceller{Kind: "ticket"}
+		} else {
+			o := g.sc.outcomeAt(MEv{Kind: "exec_start", N: n.ID, V: 0, A: 1, I: r.IntN(ni) + 1})
+			o.Cancel = true
+		}
+		g.timing(n)
+		return g.sc
 	}
 	if conc > 1 && stop && r.IntN(2) == 0 && f < conc {
 		// "failure handled first": the other in-flight items park inside their
